@@ -631,6 +631,18 @@ def make_nodemaker(seed_rng, store=None):
             return self.u
 
     class MemUploader(object):
+        """hold=True: uploads stay in flight (their Deferreds do not fire) until release()."""
+        hold = False
+
+        def __init__(self):
+            self.pending = []
+            self.last_uri = None
+
+        def release(self):
+            pending, self.pending = self.pending, []
+            for d, res in pending:
+                d.callback(res)
+
         def upload(self, uploadable, reactor=None):
             data = uploadable._data if hasattr(uploadable, "_data") else None
             if data is None:
@@ -643,6 +655,11 @@ def make_nodemaker(seed_rng, store=None):
                 key = tagged(b"verif-mem-uploader-key", data, 16)
                 u = uri.CHKFileURI(key, tagged(b"verif-mem-uploader-ueb", data), 3, 10, len(data))
                 store[u.get_storage_index()] = data
+            self.last_uri = u.to_string()
+            if self.hold:
+                d = defer.Deferred()
+                self.pending.append((d, Results(u.to_string())))
+                return d
             return defer.succeed(Results(u.to_string()))
 
     class Secrets(object):
